@@ -1110,8 +1110,18 @@ def trlog(T, check=True, twist=False):
                 return base.skew(w * theta)
         else:
             # general case
-            theta = math.acos((np.trace(R) - 1) / 2)
-            skw = (R - R.T) / 2 / math.sin(theta)
+            #  the angle is taken from its sine (norm of the skew part) and cosine: acos of the
+            #  trace rounds to 0 for angles below 1e-8 (giving NaN) and is ill conditioned near pi
+            skw = (R - R.T) / 2
+            s = base.norm(base.vex(skw))
+            if s == 0:
+                # symmetric and not a half turn: identity to within rounding
+                if twist:
+                    return np.zeros((3,))
+                else:
+                    return np.zeros((3, 3))
+            theta = math.atan2(s, (np.trace(R) - 1) / 2)
+            skw = skw / s
             if twist:
                 return base.vex(skw * theta)
             else:
